@@ -3,6 +3,7 @@
 when confirmed, store it under /verif/seeded/<property>-<n>/ with meta.json (incl. which rules catch it)."""
 import sys, os, subprocess, json, re, shutil
 out=sys.argv[1]; prop=sys.argv[2]; n=os.path.basename(out.rstrip('/'))
+prefix=sys.argv[3] if len(sys.argv)>3 else ''
 WT='/tmp/mutcheck'; VD='/tmp/mutcheck-verif'
 env=dict(os.environ, GOFLAGS='-mod=mod', GOPROXY='off', GOSUMDB='off', GOTOOLCHAIN='local'); env.pop('GOWORK',None)
 def sh(cmd, **k): return subprocess.run(cmd, shell=True, capture_output=True, text=True, env=env, **k)
@@ -11,7 +12,7 @@ if not os.path.isdir(WT): sh(f'git -C /repo worktree add --detach {WT} HEAD')
 def reset(): sh(f'git -C {WT} checkout -q --detach {head}; git -C {WT} checkout -q -- .; git -C {WT} clean -fdq')
 reset()
 patch=os.path.join(out,'patch.diff')
-res={'id':f'{prop}-{n}','property':prop,'source':'sub-agent (given only the property text and a scratch worktree)'}
+res={'id':f'{prefix}{prop}-{n}','property':prop,'source':'sub-agent (given only the property text and a scratch worktree)'}
 r=sh(f'git -C {WT} apply --whitespace=nowarn {patch}')
 if r.returncode: print('PATCH FAIL',r.stderr); sys.exit(2)
 b=sh(f'cd {WT} && go build ./... && go vet ./exec/ ./store/ ./parser/ . 2>&1 | head -5')
@@ -41,10 +42,10 @@ def run_demo():
         ok = r.returncode==0 and 'FAIL' not in r.stdout and 'panic:' not in r.stdout
         return ok, r.stdout[-600:]
     else:
-        txt=open(demo).read().replace('/tmp/mut/%s'%prop, WT) 
+        txt=open(demo).read().replace('/tmp/mut2/%s-out'%prop,'/tmp/mutcheck-out').replace('/tmp/mut/%s-out'%prop,'/tmp/mutcheck-out').replace('/tmp/mut2/%s'%prop, WT).replace('/tmp/mut/%s'%prop, WT); os.makedirs('/tmp/mutcheck-out',exist_ok=True)
         tmp='/tmp/mutcheck-demo.sh'; open(tmp,'w').write(txt)
-        r=sh(f'sh {tmp} 2>&1 | tail -25', timeout=900)
-        r2=sh(f'sh {tmp} >/dev/null 2>&1; echo $?')
+        r=sh(f'bash {tmp} 2>&1 | tail -25', timeout=900)
+        r2=sh(f'bash {tmp} >/dev/null 2>&1; echo $?')
         return r2.stdout.strip()=='0', r.stdout[-600:]
 ok_with, log_with = run_demo()
 res['demo_with_change']='fail (as required)' if not ok_with else 'PASSES (not a valid demonstration)'
@@ -76,7 +77,7 @@ res['reverse']=False
 res['what']=notes.split('\n')[0][:200]
 print(json.dumps({k:res[k] for k in ('id','existing_suite_with_change','demo_with_change','demo_without_change','caught_by','confirmed')},indent=1))
 if res['confirmed']:
-    d=f'/verif/seeded/{prop}-{n}'; os.makedirs(d,exist_ok=True)
+    d=f'/verif/seeded/{prefix}{prop}-{n}'; os.makedirs(d,exist_ok=True)
     shutil.copy(patch,d+'/patch.diff'); shutil.copy(demo,d+'/'+kind)
     if notes: open(d+'/notes.md','w').write(notes)
     json.dump(res,open(d+'/meta.json','w'),indent=1)
